@@ -166,14 +166,15 @@ fn h(v: &Value) -> u64 {
 
 fn main() {
     let ctx = Ctx::from_env("C19");
-    let p = pool(ctx.quick());
+    // the whole pool runs in well under a second: both tiers use it
+    let p = pool(false);
     let n = p.len();
 
     if let Some(r) = ctx.replay_request() {
         // replay: indices into the pool printed as debug strings; re-evaluate the law on them
         let d = &r["detail"];
         let idx: Vec<usize> = d["indices"].as_array().unwrap().iter().map(|x| x.as_u64().unwrap() as usize).collect();
-        let pool_full = if d["pool"] == "thorough" { pool(false) } else { pool(true) };
+        let pool_full = pool(false);
         let vals: Vec<&Value> = idx.iter().map(|i| &pool_full[*i]).collect();
         let law = d["law"].as_str().unwrap();
         if let Some(e) = eval_law(law, &vals) {
